@@ -633,3 +633,18 @@ Proof.
   split; [vm_compute; reflexivity|]. split; [split; reflexivity|].
   simpl. split; solve_num.
 Qed.
+
+(** *** the temperature in force after iteration k is a function of the configuration and k alone: it does not
+    depend on how long the run goes on (any accepted or refused configuration, any two run lengths) *)
+Lemma run_anneal_length_irrelevant c n n' l l' :
+  run_anneal c n = Ok l -> run_anneal c n' = Ok l' ->
+  forall k, (k <= n)%nat -> (k <= n')%nat -> nth_error l k = nth_error l' k.
+Proof.
+  intros H H' k Hk Hk'.
+  pose proof (run_anneal_length _ _ _ H) as Hl. pose proof (run_anneal_length _ _ _ H') as Hl'.
+  destruct (nth_error l k) as [t|] eqn:E; [|apply nth_error_None in E; lia].
+  destruct (nth_error l' k) as [t'|] eqn:E'; [|apply nth_error_None in E'; lia].
+  destruct (run_anneal_nth _ _ _ _ _ H E) as [s [Hs Ht]].
+  destruct (run_anneal_nth _ _ _ _ _ H' E') as [s' [Hs' Ht']].
+  rewrite Hs in Hs'. inversion Hs'; subst. reflexivity.
+Qed.
